@@ -216,7 +216,7 @@ def drive_b(rec, n, full, quick):
     L = Lib.get()
     events = []
     scaled = 0
-    W = Wrappers(L, n)
+    W = Wrappers(L, n) if n <= 65536 else None      # modules exist up to N = 65536; the kernels take any power of two
     probe = np.arange(1, n + 1, dtype=np.int64)
     for kind in ("rot", "aut", "mxp"):
         if full:
@@ -228,7 +228,7 @@ def drive_b(rec, n, full, quick):
             if kind == "aut":
                 ps = [q | 1 for q in ps]
         fns = [(nm, ip, dt) for (nm, k, ip, dt) in KERNELS if k == kind]
-        wfs = W.names(kind)
+        wfs = W.names(kind) if W else []
         for p in ps:
             groups = {}
             rnd = np.array([rng.randrange(-(1 << 20), 1 << 20) for _ in range(n)], dtype=np.int64) \
@@ -288,7 +288,8 @@ def drive_b(rec, n, full, quick):
                                       {"fns": names, "N": n, "p": p})
                 ev["_p"] = p
                 events.append(ev)
-    W.close()
+    if W:
+        W.close()
     rec.data["events"] = events
     rec.data["scaled"] = scaled
 
@@ -381,7 +382,7 @@ def run(chk, replay=None):
     nfull = 256 if quick else 1024
     jobs = []
     n = 1
-    while n <= 65536:
+    while n <= (1 << 21):
         jobs.append(("observation of the ring maps at N=%d" % n, drive_b, (n, n <= nfull, quick)))
         n *= 2
     jobs.append(("the same exponents across dimensions in one process", drive_c, (quick,)))
